@@ -44,7 +44,7 @@ Rules implemented (each with the sentence of the manual it comes from):
   editor"; BINCLUDE file[,offset[,length]] lays down the bytes of the file.
 
 Everything outside this list (references from a nested construct to a private label of
-the enclosing one, ARGCOUNT after SHIFT or with fewer arguments than
+the enclosing one, ARGCOUNT with fewer arguments than
 parameters, ...) is not defined by the manual; the generator of the check does
 not produce it and the model raises ModelError if it meets something it
 cannot decide.
@@ -346,6 +346,7 @@ class Expander:
         self.depth = 0
         self.stats = {}
         self.events = []              # (kind, detail) for evidence
+        self.frames = []              # macro expansions in progress (innermost last)
         self.dirs = ['']               # directory of the file being read (INCLUDE/BINCLUDE look there first)
         self.param_numbers = set()    # numbers of macro parameters that were substituted at least once
         self.implicit_used = set()
@@ -510,9 +511,14 @@ class Expander:
                 self.count('exitm_taken')
                 raise _Exit()
             if u == 'SHIFT':
-                fr = getattr(subst, 'frame', None)
+                # SHIFT works on the arguments of the macro expansion whose body it stands in, also from
+                # inside a repetition nested in that body (manual, SHIFT, first example: the block is
+                # captured with the arguments already inserted, then SHIFT is executed once per pass)
+                fr = self.frames[-1] if self.frames else None
                 if fr is None:
-                    raise ModelError('SHIFT outside the top level of a macro body')
+                    raise ModelError('SHIFT outside of a macro body (or inside an included file)')
+                if subst is None or getattr(subst, 'frame', None) is not fr:
+                    self.count('shift_in_nested_block')
                 if fr.args:
                     fr.args.pop(0)
                 fr.shifted = True
@@ -646,7 +652,9 @@ class Expander:
             fr.allargs = None          # "all arguments passed": not defined for keyword arguments
         # after SHIFT the remaining list is only defined by the manual's examples for plain
         # positional calls that give every parameter a non-empty argument
-        fr.shift_list_ok = (not kinds - {'excess'}) and len(given) >= np_
+        # (an empty positional argument stays an empty element of the list if its parameter has no default)
+        fr.shift_list_ok = ((not kinds - {'excess', 'empty-positional'}) and len(given) >= np_ and
+                            all(given[k] != '' or md.defaults[k] == '' for k in range(np_)))
         self.count('macro_calls')
         for k in kinds:
             self.count('call:' + k)
@@ -666,7 +674,9 @@ class Expander:
             if fr.shifted:
                 # after SHIFT: the remaining list (manual, SHIFT, second example)
                 imp['ALLARGS'] = ','.join(fr.args) if fr.shift_list_ok else None
-                imp['ARGCOUNT'] = None
+                # "the actual count of parameters passed", one less per discarded parameter; only used while
+                # it stays at or above the formal count (the manual says it is never lower than that)
+                imp['ARGCOUNT'] = str(len(fr.args)) if fr.shift_list_ok and len(fr.args) >= len(names) else None
             else:
                 imp['ALLARGS'] = fr.allargs
                 imp['ARGCOUNT'] = str(fr.argcount) if fr.argcount >= len(names) else None
@@ -684,7 +694,11 @@ class Expander:
                 raise ModelError('ARGCOUNT/ALLARGS/shifted-out parameter used where the manual does not define its value')
             return r
         subst.frame = fr
-        self.run_macro_body(md, subst, scope)
+        self.frames.append(fr)
+        try:
+            self.run_macro_body(md, subst, scope)
+        finally:
+            self.frames.pop()
 
     def run_macro_body(self, md, subst, scope):
         private = not md.globalsymbols
@@ -861,12 +875,14 @@ class Expander:
         self.depth += 1
         if self.depth > self.max_depth:
             raise ModelError('nesting deeper than %d' % self.max_depth)
+        # the text of the file is not read through the enclosing expansion:
+        # parameters are replaced in the lines of the body, not in files
+        self.dirs.append(posixpath.dirname(name))
+        self.frames.append(None)       # SHIFT inside an included file: not defined by the manual
         try:
-            # the text of the file is not read through the enclosing expansion:
-            # parameters are replaced in the lines of the body, not in files
-            self.dirs.append(posixpath.dirname(name))
             self.run_lines(self.files[name].split('\n'), None, scope, labels=labels, top=(self.depth == 1))
         finally:
+            self.frames.pop()
             self.dirs.pop()
             self.depth -= 1
 
